@@ -337,6 +337,7 @@ public:
 struct Result {
   std::string main;   // compared with the failure-free run whenever nothing was reported
   std::string aux;    // best-effort text (logs) and implementation-defined choices: compared in the retry only
+  std::string defects; // observations that are wrong whether or not an error was reported (e.g. JIT memory a failed add() kept)
   std::string image;  // hex of the last flattened image (diagnostics: lets the Python side compare two images structurally)
   void put(const char* tag, const void* p, size_t n) { main += tag; main += '='; main += hexstr(p, n); main += ';'; }
   void num(const char* tag, uint64_t v) { char b[64]; snprintf(b, sizeof b, "%s=%llu;", tag, (ull)v); main += b; }
@@ -1329,13 +1330,28 @@ struct W3 : Workload {
 
 static int callee_for_jit(int x);
 
-template<uint32_t OPTS>
+template<uint32_t OPTS, int FAR = 0>
 struct W4 : Workload {
   std::optional<JitRuntime> rt;
   std::optional<CodeHolder> code;
   std::optional<x86::Assembler> as;
   CountingHandler eh;
   static constexpr int kFns = 8;
+  size_t live = 0;      // spans the harness holds: what the runtime's allocator must report while the runtime is ALIVE
+
+  // A long-lived JitRuntime must not keep memory of an add() that failed (it would only be released by ~JitRuntime).
+  void check_allocator(const char* when, int i, const JitAllocator::Statistics* before, Result& out) {
+    JitAllocator::Statistics st = rt->allocator().statistics();
+    char b[200];
+    if (st.allocation_count() != live) {
+      snprintf(b, sizeof b, "%s(fn%d): allocator reports %zu live spans, the caller holds %zu;", when, i, st.allocation_count(), live);
+      out.defects += b;
+    }
+    else if (before && st.block_count() == before->block_count() && st.used_size() != before->used_size()) {
+      snprintf(b, sizeof b, "%s(fn%d): used_size %zu -> %zu with the same %zu blocks and spans;", when, i, before->used_size(), st.used_size(), st.block_count());
+      out.defects += b;
+    }
+  }
 
   void make_rt() {
     JitAllocator::CreateParams p;
@@ -1368,7 +1384,16 @@ struct W4 : Workload {
     else {
       Label l = a.new_label();
       if (!l.is_valid()) { R.null_result(); CHK(); E(a.mov(x86::eax, 1000 + i * 7)); }
-      else { E(a.mov(x86::eax, 1000 + i * 7)); E(a.jmp(l)); E(a.int3()); E(a.bind(l)); }
+      else {
+        E(a.mov(x86::eax, 1000 + i * 7)); E(a.jmp(l)); E(a.int3());
+        if (FAR) {   // never executed: 64-bit absolute far targets -> address-table relocations, '.addrtab' gets a buffer in relocate_to_base()
+          E(a.call(imm(0x0000123456789AB0ull + uint64_t(i) * 0x1000)));
+          E(a.jmp(imm(0x00006789ABCDEF00ull)));
+          E(a.call(imm(0x0000123456789AB0ull + uint64_t(i) * 0x1000)));
+          E(a.jmp(imm(0x0000456789ABCD00ull + uint64_t(i) * 16)));
+        }
+        E(a.bind(l));
+      }
       E(a.ret());
     }
     static uint8_t pad[4096];
@@ -1381,11 +1406,13 @@ struct W4 : Workload {
     gen(i, R); CHK();
     if (R.errs != before.errs || R.handler != before.handler || R.nulls != before.nulls) return;   // this function is abandoned
     void* fn = nullptr;
+    JitAllocator::Statistics st0 = rt->allocator().statistics();
     Error e = rt->add(&fn, &*code);
-    R.rec(e); CHK();
-    if (e != Error::kOk) { if (fn) out.main += "ADD-FAILED-BUT-POINTER-SET;"; return; }
+    R.rec(e);
+    if (e != Error::kOk) { if (fn) out.main += "ADD-FAILED-BUT-POINTER-SET;"; check_allocator("after a failed add", i, &st0, out); CHK(); return; }
     if (!fn) { out.main += "ADD-OK-BUT-NULL;"; return; }
-    *slot = fn;
+    *slot = fn; live++;
+    check_allocator("after add", i, nullptr, out); CHK();
     // the bytes at the returned address must be the relocated image the CodeHolder now describes
     size_t sz = code->code_size();
     std::string img(sz, '\0');
@@ -1400,9 +1427,10 @@ struct W4 : Workload {
 
   void body(Rec& R, Result& out) override {
     eh.R = &R;
+    live = 0;
     void* fns[kFns + 2] = {};
     for (int i = 0; i < 6; i++) { add_and_check(i, &fns[i], R, out); CHK(); }
-    for (int i : { 1, 2 }) if (fns[i]) { E(rt->release(fns[i])); fns[i] = nullptr; }
+    for (int i : { 1, 2 }) if (fns[i]) { Error e = rt->release(fns[i]); R.rec(e); if (e == Error::kOk) live--; fns[i] = nullptr; check_allocator("after release", i, nullptr, out); CHK(); }
     for (int i = 6; i < kFns; i++) { add_and_check(i, &fns[i], R, out); CHK(); }
     add_and_check(2, &fns[kFns], R, out); CHK();
     for (int i = 0; i < kFns + 1; i++) if (fns[i]) {
@@ -1410,7 +1438,7 @@ struct W4 : Workload {
       int got = reinterpret_cast<int (*)()>(fns[i])();
       if (got != expect(idx)) { char b[64]; snprintf(b, sizeof b, "again%d=%d(WRONG);", idx, got); out.main += b; }
     }
-    for (int i = kFns; i >= 0; i--) if (fns[i]) { E(rt->release(fns[i])); fns[i] = nullptr; }
+    for (int i = kFns; i >= 0; i--) if (fns[i]) { Error e = rt->release(fns[i]); R.rec(e); if (e == Error::kOk) live--; fns[i] = nullptr; check_allocator("after release", i, nullptr, out); CHK(); }
     JitAllocator::Statistics st = rt->allocator().statistics();
     out.num("live", st.allocation_count());
   }
@@ -1513,6 +1541,8 @@ static void judge(const Deferred& d) {
     viol("silent-wrong-output", "no call reported an error but the output differs from the failure-free run: " + first_diff(d.o1.main, g_clean.main));
     g_viol_images[0].clear(); g_viol_images[1].clear();
   }
+  if (!d.o1.defects.empty()) viol("jit-memory-kept-after-failed-add", "while the JitRuntime is alive: " + d.o1.defects.substr(0, 400));
+  if (!d.o2.defects.empty()) viol("jit-memory-kept-in-retry", "in the retry with memory available: " + d.o2.defects.substr(0, 400));
   if (d.Rr.reported()) viol("recover-failed", "reset/reinit after the failure reported error " + std::to_string(d.Rr.first_err));
   if (R2.reported()) {
     char b[200]; snprintf(b, sizeof b, "retry with memory available (recover strategy %d) reported an error: errs=%u first=%u (call %u) handler=%u nulls=%u", strategy, R2.errs, R2.first_err, R2.first_err_call, R2.handler, R2.nulls);
@@ -1551,6 +1581,7 @@ static bool run_case(Workload& W, int style_stop, int strategy) {
               g_wname.c_str(), R1.errs, R1.first_err, R1.first_err_call, R1.handler, R1.nulls);
       ok = false;
     }
+    if (!o1.defects.empty()) { fprintf(stderr, "HARNESS: failure-free run of %s: %s\n", g_wname.c_str(), o1.defects.c_str()); ok = false; }
     g_clean = o1; g_have_clean = true;
   }
   // (armed cases are judged after phase 2)
@@ -1791,6 +1822,8 @@ static Workload* make_workload(const std::string& n) {
   if (n == "W4multi") return new W4<uint32_t(JitAllocatorOptions::kUseMultiplePools | JitAllocatorOptions::kFillUnusedMemory | JitAllocatorOptions::kImmediateRelease)>();
   if (n == "W4dualfill") return new W4<uint32_t(JitAllocatorOptions::kUseDualMapping | JitAllocatorOptions::kFillUnusedMemory | JitAllocatorOptions::kUseMultiplePools)>();
   if (n == "W4nomemfd") return new W4<uint32_t(JitAllocatorOptions::kUseDualMapping)>();
+  if (n == "W4far") return new W4<0, 1>();
+  if (n == "W4fardual") return new W4<uint32_t(JitAllocatorOptions::kUseDualMapping | JitAllocatorOptions::kImmediateRelease), 1>();
   // @@REGISTRY@@
   return nullptr;
 }
